@@ -1161,10 +1161,25 @@ def _s_split(it, s, c=None, maxsplit=-1):
     if ls is not None and (c is None or lc is not None): return ls.split(lc, maxsplit)
     if lc is None: raise OutsideSubset('split() on symbolic')
     if lc == '': it.raise_('ValueError', 'empty separator')
-    if len(lc) != 1: raise OutsideSubset(f'split on {lc!r} of symbolic')
+    if len(lc) != 1: return _s_split_multi(it, s, lc, maxsplit)
     parts, open_tail = it.st.split(s, lc, maxsplit, f'split {lc!r}', max_open=getattr(it, 'split_max_open', 12))
     parts = [simp(p) for p in parts]
     return OpenList(parts) if open_tail else parts
+def _s_split_multi(it, s, sep, maxsplit):
+    """split on a multi-character literal separator: exact when every variable atom is non-empty and free of the separator's
+    characters (then the separator can only occur inside literal atoms)"""
+    st = it.st; sn = st.norm(s)
+    for a in sn.atoms:
+        if isinstance(a, Var) and not (a.name in st.nonempty and all(ch in st.excl.get(a.name, ()) for ch in set(sep))):
+            raise OutsideSubset(f'split on {sep!r} of a string whose variables may contain or straddle the separator')
+    parts = [[]]
+    for a in sn.atoms:
+        if isinstance(a, Var): parts[-1].append(a); continue
+        rest = a
+        while sep in rest and (maxsplit < 0 or len(parts) - 1 < maxsplit):
+            i = rest.index(sep); parts[-1].append(rest[:i]); parts.append([]); rest = rest[i + len(sep):]
+        parts[-1].append(rest)
+    return [simp(SStr(p)) for p in parts]
 def _s_rsplit(it, s, c=None, maxsplit=-1):
     ls, lc = _lit(it, s), _lit(it, c) if c is not None else None
     if ls is not None and (c is None or lc is not None): return ls.rsplit(lc, maxsplit)
